@@ -1045,14 +1045,28 @@ def register_read(R):
             return isinstance(src, AStr) and src.z.eq(ABSPATH(o["swc_file"].z))
         return src == ""
 
+    def lifted_read_pre(pre):
+        lab, f = pre
+
+        def g(E, v, o):
+            opts = dict(READ_DEFAULTS)
+            opts.update(v["kwargs"].items)
+            vv = dict(opts, swc_file=v["swc_file"])
+            return f(E, vv, vv)
+
+        return (lab, g)
+
     R.add(
         FROM_SWC,
         prop="C02",
         variants={"stream-source": from_setup("stream"), "path-source": from_setup("path"),
                   "stream-source,sort_nodes=True": from_setup("stream", sort_nodes=True),
                   "path-source,reset_index=False,fix_roots=somas": from_setup("path", reset_index=False, fix_roots="somas")},
-        requires=[("file-has-a-root-row", pre_root), ("row-ids-are-unsigned(regex fact: the id group is [0-9]+)", pre_ids),
-                  ("every-parent-id-names-a-row(file)", lambda E, v, o: K18.forest_pre(E, file_table(E, v["swc_file"].z), "every-parent-id-names-a-row"))],
+        # read_swc's own preconditions, lifted to the caller for the options it passes on (forest preconditions only when sorting /
+        # linking to the nearest node is requested)
+        requires=[("file-has-a-root-row", pre_root), ("row-ids-are-unsigned(regex fact: the id group is [0-9]+)", pre_ids)]
+        + [lifted_read_pre(pre_table(w)) for w in K18.FOREST_PRE[1:]]
+        + [lifted_read_pre(("one-root-row-when-sorting-without-root-repair(file)", pre_one_root_when_sorting_unrepaired))],
         raises={"ValueError": ("only-when-the-source-is-bad-or-unreadable", lambda E, v, o: bad_source(v))},
         ensures=[
             ("a-tree-is-returned-only-for-a-clean-readable-source(no-error-swallowed)", lambda E, v, o: z3.Not(bad_source(v))),
